@@ -7,4 +7,5 @@ export PYTHONPATH=/repo PYTHONDONTWRITEBYTECODE=1
 /venv/bin/python -B -c "import sys; sys.path.insert(0,'harness'); import fw; fw.write_coqproject()"
 cd coq
 coq_makefile -f _CoqProject -o Makefile > /dev/null
-timeout 3000 make -j16
+# -k: a file that fails to build only affects the checks whose cone contains it (each check rebuilds its own cone and reports)
+timeout 3000 make -k -j16 || echo "setup: some Coq files did not build; the affected checks will report it"
